@@ -19,7 +19,8 @@ TraceInit == s = InitS /\ l = 1 /\ failed = <<>> /\ cur = [id |-> "", forest |->
 TraceReset == /\ l <= Len(Trace) /\ Ev.e = "reset"
               /\ s' = InitS /\ cur' = [id |-> Ev.id, forest |-> Ev.forest, start |-> l] /\ l' = l + 1 /\ UNCHANGED failed
 
-Why(r, e) == IF r.res # e.res THEN "call returned " \o e.res \o " where the specification requires " \o r.res
+Why(r, e) == IF e.res = "impure" THEN "what an accessor returns depends on which accessors were called before it"
+             ELSE IF r.res # e.res THEN "call returned " \o e.res \o " where the specification requires " \o r.res
              ELSE "the Reader shows something else than the plain traversal at this position"
 
 TraceCall == /\ l <= Len(Trace) /\ Ev.e = "call"
